@@ -12,9 +12,9 @@ U32 = (1 << 32) - 1
 NOW0 = 1_700_000_000
 ORACLE_TOKS = 9
 OPLEN = dict(H.OPLEN)
-OPLEN.update({20: 7, 21: 3, 22: 3})
+OPLEN.update({20: 7, 21: 3, 22: 3, 23: 3})
 OPN = dict(H.OPN)
-OPN.update({20: "set_oracle", 21: "swap_oracle_account", 22: "set_op_state"})
+OPN.update({20: "set_oracle", 21: "swap_oracle_account", 22: "set_op_state", 23: "set_asset_tag"})
 EPS = Fraction(1, 10 ** 7)
 CONF_MULT = Fraction(212, 100)       # 95% interval from Pyth's one-sigma confidence
 CONF_CAP = Fraction(5, 100)          # the band never exceeds 5% of the price
@@ -267,6 +267,8 @@ def walk(tr):
     fixed = [b["price"] for b in tr.c["banks"]]
     orc = [dict(o) if o else None for o in tr.c["oracles"]]
     bogus = [False] * tr.nb
+    for k in range(tr.nb):
+        tr.cfg[k]["tag"] = tr.c["banks"][k]["tag"]     # (op 23 retags a bank while the trace is walked)
     for op, (res, nbanks, naccts) in zip(tr.c["ops"], tr.steps):
         if op[0] == 0:
             now = op[1]
@@ -279,6 +281,8 @@ def walk(tr):
         elif op[0] == 21:
             bogus = list(bogus)
             bogus[op[1]] = op[2] == 1
+        elif op[0] == 23:
+            tr.cfg[op[1]]["tag"] = op[2]       # from here on the bank is a venue bank (Drift: 9-decimal scaled balances)
         px = [pyth_prices(orc[k], now, bogus[k]) if orc[k] is not None else fixed_prices(fixed[k]) for k in range(tr.nb)]
         yield op, res, banks, accts, nbanks, naccts, now, px
         banks, accts = nbanks, naccts
